@@ -518,7 +518,7 @@ def _run_property(pid, tier, prop, seed, workdir, evid_path, t0):
         jobs += stage_jobs(pid, tier, si, st, seed, workdir)
     # committed regression tier: every saved case for this property is replayed first
     regress = []
-    for path in sorted(glob.glob(os.path.join(VERIF, 'replays', pid, '*.case'))):
+    for path in ([] if os.environ.get('VERIF_NO_REGRESSION') else sorted(glob.glob(os.path.join(VERIF, 'replays', pid, '*.case')))):  # (development aid: judge the fresh search alone)
         d = parse_replay(path)
         if d['harness'] in HARNESS:
             exe = build_harness(d['harness'])
